@@ -2,7 +2,7 @@
    subsystem), theorems only.  Model: C06/Model.v ([step true] = the code with fixes/F06.patch,
    [step false] = the original code).  Each theorem is closed by a lemma of Proofs / Order / Limits /
    InOrder / Exact / Refute and followed by Print Assumptions. *)
-From CF Require Import Common.Bytes C06.Model C06.Proofs C06.Order C06.Limits C06.InOrder C06.Exact C06.Refute C06.DeckModel C06.DeckProofs C06.DeckRefute C06.InfoModel C06.InfoProofs C06.InfoEnum C06.InfoRefute C06.Wrapper C06.Reentrant.
+From CF Require Import Common.Bytes C06.Model C06.Proofs C06.Order C06.Limits C06.InOrder C06.Exact C06.Refute C06.DeckModel C06.DeckProofs C06.DeckRefute C06.InfoModel C06.InfoProofs C06.InfoEnum C06.InfoRefute C06.Wrapper C06.Reentrant C06.DeckSlot.
 Open Scope Z_scope.
 
 (* ---------------------------------------------------------------- protocol limits *)
@@ -384,3 +384,43 @@ Theorem C06_request_on_dead_link_observation :
   In (RO (ORet false)) (snd (rrun true false retry_read (O, c_init) [ERead 1 0 5; EDisc])).
 Proof. exact request_on_dead_link_observation. Qed.
 Print Assumptions C06_request_on_dead_link_observation.
+
+(* ---------------------------------------------------------------- Wave 13: the deck manager's callback records *)
+(* DeckMemory.read / write take their failure callbacks as OPTIONAL arguments (ghost encoding: negative token = no
+   failure callback).  Whatever the record holds, every completion or failure notification of the manager's memory
+   clears it ... *)
+Theorem C06_deck_record_cleared_by_every_notification : forall did d u a dat t asked b,
+  a <> 0 ->
+  (d_r d = Some (t, asked, b) ->
+     d_r (fst (dnote true did d (OReadOk u did a dat))) = None /\
+     d_r (fst (dnote true did d (OReadFail u did a dat))) = None) /\
+  (d_w d = Some (t, asked, b) ->
+     d_w (fst (dnote true did d (OWriteOk u did a))) = None /\
+     d_w (fst (dnote true did d (OWriteFail u did a))) = None).
+Proof. exact deck_record_cleared_by_every_notification. Qed.
+Print Assumptions C06_deck_record_cleared_by_every_notification.
+
+(* ... so after every history (deck reads / writes with and without failure callbacks, any packets, error statuses at any
+   chunk, link drops): whenever the read / write layer holds no read (no queued write) of the manager's memory, the
+   manager's record is clear and the next DeckMemory.read (write) is taken. *)
+Theorem C06_deck_no_record_left_behind : forall did evs,
+  Forall (wf_devent did) evs ->
+  let dc := fst (drun true did (dm_init, c_init) evs) in
+  (rd_get did (c_reads (snd dc)) = None ->
+     d_r (fst dc) = None /\ forall base addr len tok, dev_event did (fst dc) (DRead base addr len tok) <> None) /\
+  (match wq_get did (c_writes (snd dc)) with Some q => q | None => [] end = [] ->
+     d_w (fst dc) = None /\ forall base addr data tok, dev_event did (fst dc) (DWrite base addr data tok) <> None).
+Proof. exact deck_no_record_left_behind. Qed.
+Print Assumptions C06_deck_no_record_left_behind.
+
+(* The variant that returns early from _new_data_failed when there is no read_failed_cb: after a refused read the read
+   layer holds nothing but the record is still set, and the next read is refused ('Read operation ongoing'). *)
+Theorem C06_deck_early_return_refuted :
+  Forall (wf_devent 6) early_history /\
+  rd_get 6 (c_reads (snd (fst (drun_early 6 (dm_init, c_init) early_history)))) = None /\
+  d_r (fst (fst (drun_early 6 (dm_init, c_init) (firstn 2 early_history)))) <> None /\
+  last (snd (drun_early 6 (dm_init, c_init) early_history)) (inr DRaise) = inr DRaise /\
+  d_r (fst (fst (drun true 6 (dm_init, c_init) (firstn 2 early_history)))) = None /\
+  ~ In (inr DRaise) (snd (drun true 6 (dm_init, c_init) early_history)).
+Proof. exact deck_early_return_refuted. Qed.
+Print Assumptions C06_deck_early_return_refuted.
